@@ -55,6 +55,12 @@ def groupCountList : List Expr → Nat
   | e :: es => groupCount e + groupCountList es
 end
 
+/-- `lo == hi` on the Rust side, where "no upper bound" is `usize::MAX` -/
+def boundsEq (lo : Nat) (hi : Option Nat) : Bool := hi == some lo || (hi.isNone && lo == UNSET)
+
+/-- iterations a counted loop is certain to run: `lo`, capped by `hi` -/
+def sureReps (lo : Nat) (hi : Option Nat) : Nat := match hi with | some h => min lo h | none => lo
+
 mutual
 /-- `Info::min_size` -/
 def minSize : Expr → Nat
@@ -63,7 +69,8 @@ def minSize : Expr → Nat
   | .concat es => minSizeSum es
   | .alt es => minSizeMin es
   | .group _ e => minSize e
-  | .repeat e lo _ _ => satMul (minSize e) lo
+  -- `min(lo, hi)`: with reversed bounds `{3,2}` the loop stops at `hi` (F18 repair)
+  | .repeat e lo hi _ => satMul (minSize e) (sureReps lo hi)
   | .delegate _ size _ => size
   | .atomic e => minSize e
   | .cond c y f => min (satAdd (minSize c) (minSize y)) (minSize f)
@@ -94,7 +101,7 @@ def constSize : Expr → Bool
   | .alt es => constSizeAll es && (match es with | [] => false | e :: _ => allMinSize (minSize e) es)
   | .group _ e => constSize e
   | .look _ _ => true
-  | .repeat e lo hi _ => constSize e && hi == some lo
+  | .repeat e lo hi _ => constSize e && boundsEq lo hi
   | .delegate _ _ _ => true
   | .backref _ => false
   | .atomic e => constSize e
